@@ -1,6 +1,7 @@
 """C19 -- everything after -r/-g is forwarded verbatim; everything before is ours"""
 from lib.runner import Ob
 from lib import symx
+from harness import c13
 
 LEVEL = 'model_checking'
 MANIFEST = {'category': 'model_checking', 'engine': 'symx+z3',
@@ -287,5 +288,9 @@ def obligations(tier):
         Ob('malformed-matchers', 'symx', '-f/-b values are parsed as matchers; malformed ones raise', FUNCS[4:5], '4 option spellings x 9 texts', bad_matchers, cases=[None]),
         Ob('gdb-quoting', 'symx', 'run_gdb: words reach the in-GDB sys.argv literal only through repr(); forwarded words verbatim after `gdb -ex <cmd>`', FUNCS[5:6],
            '0..3 opaque words (any content); replay on %d hostile concrete words' % len(HOSTILE), gdb_quoting, cases=[0, 1, 2, 3], stubs=['subprocess replaced by a recorder', 'verify_gdb_available stubbed']),
+        Ob('run-mode-forwarding', 'symx', 'run mode: the words after -r reach the started program verbatim, as one argv entry each (the C13 environment model, child part)',
+           ['backends.libwayland_debug_output.runner:_Subprocess.run', 'backends.libwayland_debug_output.runner:run_program', 'frontends.tui.arguments:parse_args'],
+           '4 argv shapes (3 words incl. option look-alikes, 1 word, 1 word with spaces, words with quotes and shell characters) x built directly or through the real command line', c13.modes,
+           cases=[(1, 0, 'child'), (0, 0, 'child')], stubs=['see C13']),
         Ob('split-reachable', 'symx', 'reachability twin', FUNCS[:3], '', twin, cases=[(3, 2)], expect_cex=True),
     ]
